@@ -17,16 +17,16 @@ REQUIRED = [
     'Ems.C06.cf1d_polygon_at', 'Ems.C06.cf1d_length', 'Ems.C06.midBounds_interior', 'Ems.C06.midBounds_outer',
     'Ems.C06.cf2d_polygon_at', 'Ems.C06.arakawa_polygon_at', 'Ems.C06.ugrid_polygon_at',
     'Ems.C06.missing_no_polygon', 'Ems.C06.storedCorners_spec', 'Ems.C06.ugrid_bad_node', 'Ems.C06.midBounds_length', 'Ems.C06.mask_iff', 'Ems.C06.invalid_dropped', 'Ems.C06.warned_iff',
-    'Ems.C06.bbox_spec',
+    'Ems.C06.bbox_spec', 'Ems.C06.cf1d_box_is_union', 'Ems.C06.cf1d_cell_is_polygon',
 ]
 RULE = ('datasets of every convention from the recipe generator: CF 1-D axes ascending / descending / non-uniform, '
-        'with stored bounds (contiguous; gapped in thorough tier) and without, coordinates and bounds as xarray '
+        'with stored bounds (contiguous or gapped, the four axis directions in turn) and without, coordinates and bounds as xarray '
         'coordinates or plain variables; CF 2-D / SHOC simple sheared lattices with stored 4-corner bounds or derived '
         'bounds, holes, 1xN / Nx1 degenerate derived cells, bow-tie (self-intersecting) stored cells; SHOC standard node '
         'lattices with masked nodes; UGRID meshes mixing 3..8-gons, concave and collinear, 0/1-based, NaN / _FillValue / '
         'no fill, transposed, node coordinates as variables or coordinates. Compared: exact vertex lists of every '
         'polygon, mask, InvalidPolygonWarning, bounds; exact ring validity vs GEOS on every raw cell; geometry vs '
-        'GEOS union of polygons. Non-trivial: dataset with a hole, an invalid cell, derived bounds, a non-quad face, '
+        'GEOS union of polygons; for CF 1-D grids the decision box-of-the-bounds / union-of-cells of the overall geometry. Non-trivial: dataset with a hole, an invalid cell, derived bounds, a non-quad face, '
         'or a non-default storage of coordinates; distinct by recipe.')
 TRUSTED = ['GEOS is_valid / unary_union / equals; numpy nanmean, pad, stack, reshape']
 ASSUMPTIONS = ['coordinates are small integers / dyadic rationals so every float operation on the code path is exact',
@@ -40,7 +40,7 @@ def make_recipe(ctx, k: int) -> dict:
     if conv == 'cf1d':
         kw['coords_as'] = rng.choice(['coords', 'coords', 'vars'])
         kw['bounds_as'] = rng.choice(['vars', 'vars', 'coords'])
-        if rng.random() < (0.25 if ctx.thorough else 0.2):
+        if rng.random() < 0.4:
             kw['bounds'] = 'gaps'
     elif conv in ('cf2d', 'shoc_simple'):
         kw['coords_as'] = rng.choice(['coords', 'coords', 'vars'])
@@ -50,7 +50,13 @@ def make_recipe(ctx, k: int) -> dict:
         kw['coords_as'] = rng.choice(['coords', 'coords', 'vars'])
     else:
         kw['coords_as'] = rng.choice(['vars', 'vars', 'vars', 'coords'])
-    return G.random_recipe(rng, conv, ctx.tier, **kw)
+    recipe = G.random_recipe(rng, conv, ctx.tier, **kw)
+    if conv == 'cf1d':
+        # the four axis directions in turn (north-to-south latitudes, east-to-west longitudes)
+        u = k // len(G.CONVS)
+        recipe['lat'] = sorted(recipe['lat'], reverse=u % 2 == 1)
+        recipe['lon'] = sorted(recipe['lon'], reverse=(u // 2) % 2 == 1)
+    return recipe
 
 
 def examine(ctx, recipe: dict, items: list) -> None:
@@ -86,6 +92,21 @@ def examine(ctx, recipe: dict, items: list) -> None:
     if nontrivial:
         ctx.nontrivial(recipe)
     ctx.count(f'conv:{conv}')
+    if conv == 'cf1d' and c is not None:
+        # the overall geometry of an axis-aligned grid: the box of its bounds, or (gaps) the union of the cells.
+        # Observed topologically; the generator's bounds are either gap-free or leave true gaps.
+        gl = 'cf1dgeom ' + S.polys_args(built)[len('cf1d '):]
+        try:
+            geom = c.geometry
+            bb = tuple(float(v) for v in geom.bounds)
+            if geom.equals(shapely.box(*bb)):
+                gout = 'box ' + ','.join(S.num(Fraction(v)) for v in bb)
+            else:
+                gout = 'union'
+        except Exception:
+            gout = 'ERR'
+        items.append((gl, gout, {'recipe': recipe, 'op': gl}))
+        ctx.count(f'cf1d-geometry:{gout.split()[0]}')
     if any_invalid:
         ctx.count('has-invalid-cell')
     if any(q is None for q in raw):
@@ -154,7 +175,7 @@ def examine(ctx, recipe: dict, items: list) -> None:
 
 def run(ctx) -> None:
     items: list = []
-    n = ctx.budget(80, 700)
+    n = ctx.budget(160, 900)
     for k in range(n):
         recipe = make_recipe(ctx, k)
         ctx.guarded(lambda: examine(ctx, recipe, items), {'recipe': recipe})
